@@ -262,6 +262,26 @@ def main(tier, seed, replay=None):
         return res
 
     nvm = vm_subsample(run, "task_message", rng, sub, subm, call, parse_vm)
+    # task::find_last_line (what the display shows of a running command's output) against Proc.find_last_line
+    if not replay:
+        ll = [b""]
+        alpha = [b"a", b"\n", b"\r", b" ", "é".encode()]
+        for n in range(1, 7 if tier == "quick" else 8):
+            ll += [b"".join(t) for t in itertools.product(alpha, repeat=n)]
+        for _ in range(500):
+            ll.append(b"".join(rng.choice([b"line %d" % rng.randint(0, 99), b"\n", b"\r\n", b"\n\n", "日本".encode(), b"\x1b[1m", b"\xff"]) for _ in range(rng.randint(1, 12))))
+        a_, m_, bad_ = differential(run, "task::find_last_line", har, drv, "lastline", "lastline", [hexs(c) for c in ll])
+        for c, r in zip(ll, a_):
+            if not r.startswith("ok"):
+                run.report_failure(None, "find_last_line did not return: %s" % r[:100], {"input_hex": hexs(c)})
+            else:
+                got = unhexs(r[3:].strip() or "-")
+                body = c.rstrip(b"\r\n")
+                want = body[max(body.rfind(b"\n"), body.rfind(b"\r")) + 1:]
+                if got != want:
+                    run.report_failure(None, "find_last_line(%r) = %r, expected the last non-empty line %r" % (c[:60], got[:60], want[:60]), {"input_hex": hexs(c)})
+        stats["last_line_cases"] = len(ll)
+        stats["last_line_disagreements"] = len(bad_)
     npty = (pty_leg(run, tier) + pty_resize_leg(run)) if not replay else 0
     stats["pty_runs"] = npty
     run.coverage.update(info)
